@@ -493,7 +493,9 @@ fn main() {
         found.dedup_by(|a, b| a.0 == b.0 && a.1 == b.1);
         for (what, loc, desc) in found {
             dist.hit(&format!("scan.found.what{what}.loc{loc}"));
-            scan.push(&format!("({what}, {loc})"), &format!("history {tagn}: {desc}"), true);
+            let mut how = format!("{human} policy={pol:?} ops={ops:?}");
+            how.truncate(1800);
+            scan.push(&format!("({what}, {loc})"), &format!("history {tagn}: {desc}; after {how}"), true);
             let _ = &hits;
         }
     };
